@@ -99,14 +99,18 @@ def check_pairs_and_keys(prog, rep, tier):
                             (ql, 'attribute' if key[0] == 'a' else 'dataset', key[1], qs,
                              disc_by_attr(w) or w.conds or 'default'), lf.lineno)
                 # field pairing
+                pairs_ = []
                 for key, target in r.required.items():
+                    tg = getattr(r, 'all_targets', {}).get(key) or [target]
+                    pairs_.extend((key, t_) for t_ in tg)
+                for key, target in pairs_:
                     val = w.written.get(key)
                     if val is None or target is None:
                         continue
                     if isinstance(val, ast.Attribute) and isinstance(val.value, ast.Name) and \
                             val.value.id == 'self' and isinstance(target, ast.Attribute) and \
                             isinstance(target.value, ast.Name):
-                        ck = 'field:%s:%s' % (key[1], val.attr)
+                        ck = 'field:%s:%s:%s' % (key[1], val.attr, target.attr)
                         rep.instance('HDF5-field', {'class': q, 'key': key[1], 'saved': val.attr,
                                                     'restored': target.attr})
                         if val.attr != target.attr and ck not in reported:
@@ -956,6 +960,8 @@ def run(prog, rep, tier):
     check_dispatch(prog, rep)
     check_from_hdf5_memo(prog, rep)
     check_masked_compact(prog, rep)
+    if check_independent_parts(prog, rep) < 2:
+        raise AnalysisError('HDF5-reduce: the two parts of the pickle state in load_reduce not found')
     check_path_component(prog, rep)
     if check_ctor_roles(prog, rep) < 5:
         raise AnalysisError('HDF5-ctor-roles: fewer than 5 constructor arguments resolved')
@@ -1246,3 +1252,40 @@ def check_path_component(prog, rep):
                                   'it does not name a fresh child of the group: saving fails or '
                                   'overwrites' if got else 'it is a valid component'),
                           f.lineno)
+
+
+def check_independent_parts(prog, rep):
+    """HDF5-reduce (independent parts): load_reduce unpacks the pickle state `(dict_state,
+    slot_state)`; each part is applied under a test of ITSELF only. A part handled under a test of
+    the other one is lost whenever that other part is empty (purely slotted classes have an empty
+    instance dict)."""
+    from ..pattern import guards_of
+    m = prog.module(HIO)
+    f = m.func('Hdf5Loader.load_reduce')
+    n = 0
+    for st in stmts_of(f):
+        if not (isinstance(st, ast.Assign) and len(st.targets) == 1 and isinstance(
+                st.targets[0], ast.Tuple) and len(st.targets[0].elts) == 2 and all(
+                    isinstance(e, ast.Name) for e in st.targets[0].elts)):
+            continue
+        a, b = [e.id for e in st.targets[0].elts]
+        for this, other in ((a, b), (b, a)):
+            uses = [lp for lp in ast.walk(f) if isinstance(lp, ast.For) and any(
+                isinstance(x, ast.Name) and x.id == this for x in ast.walk(lp.iter)) and
+                lp.lineno > st.lineno]
+            for lp in uses:
+                gs = guards_of(f, lp)
+                dep = [t for t, pol, e in gs if pol and other in names_in(e) and
+                       this not in names_in(e) and 'isinstance' not in t and 'len(' not in t]
+                n += 1
+                rep.instance('HDF5-reduce', {'function': 'Hdf5Loader.load_reduce',
+                                             'part': this, 'applied_under': [t for t, _, _ in gs][-3:],
+                                             'independent': not dep})
+                if dep:
+                    rep.violation('HDF5-reduce', m, 'Hdf5Loader.load_reduce',
+                                  'part-under-other:%s:%s' % (this, other),
+                                  'the `%s` part of the unpacked state is only applied when '
+                                  '`%s` holds: for an object whose `%s` part is empty (a class '
+                                  'with __slots__ and no instance dict) the `%s` part is dropped '
+                                  'on load' % (this, dep[0], other, this), lp.lineno)
+    return n
